@@ -10,7 +10,15 @@ NAME=$1; W=$2; PROP=$3; BUDGET=${4:-40}
 D=/verif/seeded/$NAME
 mkdir -p "$D"
 cd "$W" || exit 2
-git diff -- include c-interface > "$D/patch.diff"
+# the agent's deliverable is SEED/patch.diff; the working state of its worktree is not trusted (agents used `git stash`,
+# whose stack is shared between worktrees): reset to HEAD and apply the deliverable
+if [ -s SEED/patch.diff ]; then
+    cp -f SEED/patch.diff "$D/patch.diff"
+    git checkout -q -- include c-interface
+    git apply "$D/patch.diff" || { echo "$NAME: SEED/patch.diff does not apply to HEAD"; exit 2; }
+else
+    git diff -- include c-interface > "$D/patch.diff"
+fi
 [ -s "$D/patch.diff" ] || { echo "$NAME: empty patch"; exit 2; }
 cp -f SEED/demo.cpp "$D/demo.cpp" 2>/dev/null
 cp -f SEED/README.md "$D/agent_README.md" 2>/dev/null
@@ -34,7 +42,7 @@ grep -q 'cpgm.h' "$D/demo.cpp" 2>/dev/null && DEMO_LINK="$W/c-interface/cpgm.cpp
 grep -q 'pthread\|<thread>' "$D/demo.cpp" 2>/dev/null && DEMO_LINK="$DEMO_LINK -lpthread"
 grep -q 'fsanitize=thread' "$D/agent_README.md" 2>/dev/null && DEMO_EXTRA="-fsanitize=thread -g"
 demo_build; (cd "$W" && timeout 900 ./_demo > "$W/_demo_with.txt" 2>&1); with_rc=$?
-git stash -q; demo_build; (cd "$W" && timeout 900 ./_demo > "$W/_demo_without.txt" 2>&1); without_rc=$?; git stash pop -q
+git apply -R "$D/patch.diff"; demo_build; (cd "$W" && timeout 900 ./_demo > "$W/_demo_without.txt" 2>&1); without_rc=$?; git apply "$D/patch.diff"   # never git stash: the stash stack is shared between worktrees
 echo "demo_with_change_rc: $with_rc   demo_without_change_rc: $without_rc" | tee -a "$LOG"
 tail -3 "$W/_demo_with.txt" >> "$LOG"; tail -2 "$W/_demo_without.txt" >> "$LOG"
 # (4) my check against the changed tree
